@@ -302,6 +302,46 @@ def run(prog, ctx):
                   "%s looks an index vector up in %s, but the points / weights are enumerated from self.%s: with boundary=False the two "
                   "numberings differ by the dropped boundary point, points and weights of the point-wise integrator are misaligned"
                   % (lk_name, sorted(used) or "no per-dimension array", enum_attr))
+    # the single-inner-point special case of the composite trapezoidal weight is one of the values of the general formula
+    # (h for an inner point, h/2 for an end point): a special case must not introduce a third value
+    from ..absint import poly_of_term as _poly
+    wct = prog.func("Grid.TrapezoidalGrid1D.weight_composite_trapezoidal")
+    ctx.touch(wct)
+    tmt = Terms(wct.node, max_depth=0)
+
+    def arms(t):
+        """values an expression with conditional sub-expressions can take"""
+        if isinstance(t, tuple) and t and t[0] == "ifexp":
+            return arms(t[2]) + arms(t[3])
+        if isinstance(t, tuple) and t and t[0] == "op":
+            outs = [[]]
+            for x in t[2]:
+                outs = [o + [a] for o in outs for a in arms(x)]
+            return [("op", t[1], tuple(o)) for o in outs]
+        return [t]
+    ps_ = R.path_summaries(wct)
+    rvals = [v for (_f, v) in ps_ if v != ("<falls-off>",)] if ps_ is not None else [tmt.term(r.ast.value) for r in R.return_paths(wct)[0]]
+    general = [v for v in rvals if any(x[0] == "ifexp" for x in subterms(v))]
+    special = [v for v in rvals if v not in general]
+    allowed = set()
+    for gv in general:
+        for a_ in arms(gv):
+            try:
+                allowed.add(_poly(a_))
+            except Exception:                          # noqa: BLE001
+                pass
+    bad_sp = []
+    for sv in special:
+        try:
+            if _poly(sv) not in allowed:
+                bad_sp.append(sv)
+        except Exception:                              # noqa: BLE001
+            bad_sp.append(sv)
+    ctx.check(bool(general) and not bad_sp, "C02.D3", R.key_of(wct, "special-case-is-a-general-value"), wct.loc(),
+              "the special-case weight %s is one of the general values %s" % ([show(x) for x in special], sorted(repr(x) for x in allowed)),
+              "weight_composite_trapezoidal: the special case returns %s, which is neither the inner-point weight (spacing) nor the end-point "
+              "weight (spacing / 2) of the general formula: the single inner point of a level-1 grid without boundary gets a different weight"
+              % [show(x) for x in bad_sp])
     # weights reduce over the dimension axis of the enumerated tuples
     tmw = Terms(gw.node)
     okp = False
